@@ -16,6 +16,27 @@ def sh(cmd, **kw):
 if sh(["git", "-C", "/repo", "status", "--porcelain", "--untracked-files=no"]).stdout.strip():
     print("/repo has uncommitted changes; refusing"); sys.exit(2)
 rows = []
+# a partial sweep (id prefixes given) keeps the rows of the seeds it does not run
+kept = {}
+notes_path = os.path.join(ROOT, "notes", "seed-regression.txt")
+if want and os.path.exists(notes_path):
+    for l in open(notes_path):
+        if l.startswith("S"):
+            parts = l.split(None, 2)
+            if len(parts) == 3:
+                kept[parts[0]] = (parts[0], parts[1], parts[2].rstrip("\n"))
+
+
+def write_notes():
+    merged = dict(kept)
+    for r in rows:
+        merged[r[0]] = r
+    with open(notes_path, "w") as f:
+        f.write("# tools/run_seeds.py: every kept seeded change applied to /repo in turn, the property's quick check run, undone\n")
+        for k in sorted(merged):
+            f.write("%-50s %-16s %s\n" % merged[k])
+
+
 for sid in sorted(os.listdir(SEEDED)):
     if want and not any(sid.startswith(w) for w in want):
         continue
@@ -43,15 +64,8 @@ for sid in sorted(os.listdir(SEEDED)):
         sh(["git", "-C", "/repo", "checkout", "--", "."])
         sh(["git", "-C", ROOT, "checkout", "--", "evidence/"])
     print(rows[-1], flush=True)
-    # written after every seed, so that an interrupted sweep still leaves what it found
-    with open(os.path.join(ROOT, "notes", "seed-regression.txt"), "w") as f:
-        f.write("# tools/run_seeds.py: every kept seeded change applied to /repo in turn, the property's quick check run, undone\n")
-        for r in rows:
-            f.write("%-50s %-16s %s\n" % r)
-with open(os.path.join(ROOT, "notes", "seed-regression.txt"), "w") as f:
-    f.write("# tools/run_seeds.py: every kept seeded change applied to /repo in turn, the property's quick check run, undone\n")
-    for r in rows:
-        f.write("%-50s %-16s %s\n" % r)
+    write_notes()   # after every seed, so that an interrupted sweep still leaves what it found
+write_notes()
 bad = [r for r in rows if r[1] in ("MISSED", "FALSE-ALARM")]
 print(f"{len(rows)} seeds: {sum(r[1].startswith('CAUGHT') for r in rows)} caught, {len(bad)} missed, {sum(r[1]=='STALE' for r in rows)} stale")
 sys.exit(1 if bad else 0)
